@@ -144,4 +144,6 @@ let () = iter_lines (fun line ->
       for x = lo to hi do Buffer.add_string b (" " ^ string_of_int (int_of_z (nbits (z_of_int x)))) done;
       print_endline (Buffer.contents b)
   | "ms" :: _ -> print_endline "ms -"
+  | "tn" :: _ -> print_endline "tn -"
+  | "tw" :: _ -> print_endline "tw -"
   | _ -> print_endline "?")
